@@ -179,7 +179,8 @@ pub fn check_point(m: &GenModel, sol: &Sol, x: &[f64], out: &mut Vec<Finding>) {
     }
     let builder = sol.handle_values.is_some();
     let obj = m.objective_at(x) - m.offset + m.offset_as_seen_by(builder);
-    if !((sol.value - obj).abs() <= TOL * obj.abs().max(m.value_scale())) {
+    let off = m.offset_as_seen_by(builder);
+    if !((sol.value - obj).abs() <= TOL * (obj - off).abs().max(m.value_scale()) + 1e-9 * off.abs()) {
         out.push(f(
             "objective-mismatch",
             format!(
@@ -309,19 +310,27 @@ pub fn check_row_activities(
     }
 }
 
-fn runaway(sol: &Sol) -> bool {
-    sol.value.abs() > 1e6 || sol.assignment.iter().any(|(_, v)| v.abs() > 1e6)
+fn runaway(m: &GenModel, sol: &Sol) -> bool {
+    // (the objective's constant may legitimately be large: look at the optimised part)
+    (sol.value - m.offset).abs() > 1e6 * m.value_scale().max(1.0)
+        || sol.assignment.iter().any(|(_, v)| v.abs() > 1e6)
 }
 
-fn within_gap(value: f64, opt: f64, gap: f64, scale: f64) -> bool {
-    (value - opt).abs() <= gap * value.abs().max(opt.abs()) + TOL * opt.abs().max(scale)
+/// `offset` = the constant part of the objective as this entry point sees it: the float
+/// tolerance is relative to the part that is optimised (plus rounding of the constant), not
+/// to the total, which a large constant would turn into whole units of slack.
+fn within_gap(value: f64, opt: f64, gap: f64, scale: f64, offset: f64) -> bool {
+    (value - opt).abs()
+        <= gap * value.abs().max(opt.abs())
+            + TOL * (opt - offset).abs().max(scale)
+            + 1e-9 * offset.abs()
 }
 
 /// C04: everything that must hold of any returned solution.
 pub fn judge_c04(m: &GenModel, reference: &RefModel, res: &RunResult) -> Vec<Finding> {
     let mut out = Vec::new();
     if let Outcome::Sol(sol) = &res.outcome {
-        if runaway(sol) {
+        if runaway(m, sol) {
             // an iterate of magnitude 1e6+ on data with |coefficients| <= 15 is not a
             // candidate solution at all; one class instead of a row-by-row post-mortem
             out.push(f(
@@ -360,7 +369,13 @@ pub fn judge_c05(m: &GenModel, truth: Verdict, cfg: &RunCfg, res: &RunResult) ->
             Label::Optimal => match truth {
                 Verdict::Optimal(opt) => {
                     let opt = opt.to_f64() - m.offset + m.offset_as_seen_by(cfg.entry.is_builder());
-                    if !within_gap(sol.value, opt, cfg.gap.allowed(), m.value_scale()) {
+                    if !within_gap(
+                        sol.value,
+                        opt,
+                        cfg.gap.allowed(),
+                        m.value_scale(),
+                        m.offset_as_seen_by(cfg.entry.is_builder()),
+                    ) {
                         out.push(f(
                             "wrong-optimum",
                             format!(
@@ -375,7 +390,7 @@ pub fn judge_c05(m: &GenModel, truth: Verdict, cfg: &RunCfg, res: &RunResult) ->
                 // magnitude 1e6 and more is an interior-point iterate that ran away, a
                 // different failure from a plausible-looking wrong answer
                 Verdict::Infeasible => out.push(f(
-                    if runaway(sol) {
+                    if runaway(m, sol) {
                         "solution-for-infeasible:huge"
                     } else {
                         "solution-for-infeasible"
@@ -383,7 +398,7 @@ pub fn judge_c05(m: &GenModel, truth: Verdict, cfg: &RunCfg, res: &RunResult) ->
                     format!("returned a solution (value {}) for an infeasible model", sol.value),
                 )),
                 Verdict::Unbounded => out.push(f(
-                    if runaway(sol) {
+                    if runaway(m, sol) {
                         "optimum-for-unbounded:huge"
                     } else {
                         "optimum-for-unbounded"
@@ -492,7 +507,13 @@ pub fn judge_c15(m: &GenModel, truth: Verdict, cfg: &RunCfg, res: &RunResult) ->
                 Label::Optimal => match truth {
                     Verdict::Optimal(opt) => {
                         let opt = opt.to_f64() - m.offset + m.offset_as_seen_by(cfg.entry.is_builder());
-                        if !within_gap(sol.value, opt, cfg.gap.allowed(), m.value_scale()) {
+                        if !within_gap(
+                        sol.value,
+                        opt,
+                        cfg.gap.allowed(),
+                        m.value_scale(),
+                        m.offset_as_seen_by(cfg.entry.is_builder()),
+                    ) {
                             out.push(f(
                                 "optimal-label-outside-gap",
                                 format!(
